@@ -240,6 +240,14 @@ def random_spec(rng, wide=False):
     c = rng.random()
     if c < 0.15:
         spec["allgather"] = sorted(rng.sample(range(G), rng.randint(1, G)))
+    if rng.random() < 0.12:
+        # device counters of all ranks already aligned to the cycle (one common epoch, ideal transfers): every
+        # computed shift is exactly 0, yet the host clocks differ and jitter - the rigid re-basing onto rank 0's
+        # host clock still has to happen
+        spec["dev_epochs"] = [de[0]] * R
+        spec["rjit"] = False
+        spec["host_epochs"] = [1_000_000_000.0 + rng.choice([0, 17, 37.5, 250, 1000]) * i for i in range(R)]
+        spec["ejit"] = True
     return spec
 
 
